@@ -155,6 +155,10 @@ func runC14(c *eng.Ctx) {
 	ruleEveryBatchedMessageWasValidated(c)
 	ruleCreateIsStartable(c)
 	ruleNegativeSettingsTakeTheDefault(c)
+	c.Rule("R02.3", "K1")
+	ruleFollowerAppendGuards(c)
+	c.Rule("R01.18", "K4")
+	rulePooledBuffersDoNotEscape(c)
 
 	// ---- R14.1 bounds on bytes that arrive from NATS
 	c.Rule("R14.1", "K9")
@@ -307,7 +311,7 @@ func runC14(c *eng.Ctx) {
 			hdr := eng.CmpEdges(fn, func(v ssa.Value) bool { return isHeaderLen(v) }, eng.IntConst(12), eng.EQ)
 			nret := 0
 			for _, r := range eng.Returns(fn) {
-				if len(r.Results) != 2 || !eng.NilConst(r.Results[1]) {
+				if len(eng.RetVals(r)) != 2 || !eng.NilConst(eng.RetVals(r)[1]) {
 					continue
 				}
 				nret++
@@ -346,7 +350,7 @@ func runC14(c *eng.Ctx) {
 			// type check precedes success
 			typeOK := eng.CmpEdges(fn, eng.AnyV, eng.Param("expectedType"), eng.EQ)
 			for _, r := range eng.Returns(fn) {
-				if len(r.Results) == 2 && eng.NilConst(r.Results[1]) {
+				if len(eng.RetVals(r)) == 2 && eng.NilConst(eng.RetVals(r)[1]) {
 					g, w := eng.GuardedBy(fn, r, typeOK)
 					c.Check(g, "type check before success in checkEnvelope", c.Pos(r), "actualType == expectedType on every path", "success return reachable without the message type check: "+w.String())
 				}
@@ -432,7 +436,7 @@ func runC14(c *eng.Ctx) {
 			uv := um[0].(ssa.Value)
 			errNil := eng.CmpEdges(fn, func(v ssa.Value) bool { e, ok := v.(*ssa.Extract); return ok && e.Tuple == uv && e.Index == 1 }, eng.NilConst, eng.EQ)
 			for _, r := range eng.Returns(fn) {
-				if len(r.Results) == 1 && !eng.NilConst(r.Results[0]) {
+				if len(eng.RetVals(r)) == 1 && !eng.NilConst(eng.RetVals(r)[0]) {
 					g, w := eng.GuardedBy(fn, r, errNil)
 					c.Check(g, "getMessage returns a message only on success", c.Pos(r), "non-nil result only on err == nil", "a message is returned although decoding failed: "+w.String())
 				}
@@ -1081,7 +1085,7 @@ func comparesFieldWithNil(v *ssa.Function, field, nested string) bool {
 		return false
 	}
 	for _, r := range eng.Returns(v) {
-		for _, res := range r.Results {
+		for _, res := range eng.RetVals(r) {
 			if !eng.NilConst(res) && res.Type().String() == "error" {
 				return true
 			}
